@@ -112,22 +112,24 @@ def finish(prop, results, N, t, sd, t0, extra_cov=None, extra_viol=(), extra_inc
     for ktext, cnt in known_hits.items():
         print(f"KNOWN-FINDING: property={prop} {ktext} ({cnt} paths)")
     accepted = [r for r in results if r['accepted']]
-    stats = dict(explored_paths=0, reused_paths=0, steps=0, queries=0, solver_time=0.0)
+    stats = dict(explored_paths=0, reused_paths=0, steps=0, queries=0, solver_time=0.0, reused_steps=0)
     fns = set(); models = set()
     for r in results:
-        for k in stats: stats[k] += r['stats'][k]
+        for k in stats: stats[k] += r['stats'].get(k, 0)
         fns |= set(r['stats']['fns']); models |= set(r['stats']['models'])
     paths = sum(r['paths'] for r in results)
     samples = []
     for r in accepted:
         samples += r['samples'][:1]
     cov = dict(
-        states=max(1, paths + sum(r['forks'] for r in results)), transitions=max(1, stats['steps']),
+        states=max(1, paths + sum(r['forks'] for r in results)), transitions=max(1, stats['steps'] + stats['reused_steps']),
         traces_validated_against_impl=sum(r['validated'] for r in results),
         samples=samples[:12] or [{'note': 'no accepted grammar'}],
         exhaustive=not inconclusive,
         explanation='states = leaves + fork nodes of the decision trees (one per grammar, entry point and input length); '
-                    'transitions = MIR statements executed symbolically in this run (reused explorations of byte-identical MIR are counted under reused_paths, not here)',
+                    'transitions = MIR statements executed symbolically for the paths this check evaluated: transitions_executed_by_this_process of them by this process, the rest by an '
+                    'earlier check of the same session on byte-identical MIR (content-addressed cache, see explored_paths / reused_paths)',
+        transitions_executed_by_this_process=stats['steps'],
         bounds=dict(max_tokens=N, grammars=len(results), accepted=len(accepted), tier=t),
         grammars=[dict(name=r['name'], family=r['family'], accepted=r['accepted'], reason=r['reason'], paths=r['paths'], wall_s=round(r['wall'], 2)) for r in results],
         paths=paths, explored_paths=stats['explored_paths'], reused_paths=stats['reused_paths'],
